@@ -270,6 +270,26 @@ def norm : Opt → Opt
   | .msg _ ks => .msg "" (normKids ks)
   | .arr _ ks => .arr "" (normElems ks)
 
+/-! the same without dropping anything (a list inside a list keeps its place) -/
+mutual
+/-- blank the keys the text does not carry: of list elements (and, in `eraseKeys`, of the root) -/
+def eraseKids : List Opt → List Opt
+  | [] => []
+  | .scalar k v :: r => .scalar k v :: eraseKids r
+  | .msg k ks :: r => .msg k (eraseKids ks) :: eraseKids r
+  | .arr k ks :: r => .arr k (eraseElems ks) :: eraseKids r
+def eraseElems : List Opt → List Opt
+  | [] => []
+  | .scalar _ v :: r => .scalar "" v :: eraseElems r
+  | .msg _ ks :: r => .msg "" (eraseKids ks) :: eraseElems r
+  | .arr _ ks :: r => .arr "" (eraseElems ks) :: eraseElems r
+end
+
+def eraseKeys : Opt → Opt
+  | .scalar _ v => .scalar "" v
+  | .msg _ ks => .msg "" (eraseKids ks)
+  | .arr _ ks => .arr "" (eraseElems ks)
+
 /-! the trees `WalkOptionField` produces: no list directly inside a list -/
 mutual
 def wfKids : List Opt → Bool
